@@ -966,7 +966,12 @@ func (em *emitter) emitSwitch(node *ast.Switch) {
 		em.emitNodes(cas.Body)
 		hasFallthrough := false
 		for i := len(cas.Body) - 1; i >= 0; i-- {
-			if _, ok := cas.Body[i].(*ast.Fallthrough); ok {
+			stmt := cas.Body[i]
+			// The fallthrough statement can be labeled.
+			for label, ok := stmt.(*ast.Label); ok; label, ok = stmt.(*ast.Label) {
+				stmt = label.Statement
+			}
+			if _, ok := stmt.(*ast.Fallthrough); ok {
 				hasFallthrough = true
 				break
 			}
